@@ -93,9 +93,12 @@ def sweep(o, ost, kids, rnd, n_grid):
     top = max(Cs) * 1.2
     ws.update(round(top * i / n_grid, 2) for i in range(n_grid))
     ws = sorted(w for w in ws if w >= 0)
-    rows = [dict(person(year, w, ost, ges_pflegev_hat_kinder=bool(kids)), p_id=i, hh_id=i) for i, w in enumerate(ws)]
+    if kids == "young":       # childless and under 23: no childless surcharge in long-term care insurance
+        rows = [dict(person(year, w, ost, ges_pflegev_hat_kinder=False, alter=22, geburtsjahr=year - 22), p_id=i, hh_id=i) for i, w in enumerate(ws)]
+    else:
+        rows = [dict(person(year, w, ost, ges_pflegev_hat_kinder=bool(kids)), p_id=i, hh_id=i) for i, w in enumerate(ws)]
     df = popgen.to_frame(rows)
-    if not isinstance(kids, bool):
+    if not isinstance(kids, (bool, str)):
         # the number of children under 25 relevant for long-term care insurance, supplied as data (C05)
         df["ges_pflegev_anz_kinder_bis_24"] = int(kids)
     return ws, df, dict(G=G, U=U, C_pension=Cs[0], C_health=Cs[1])
@@ -144,10 +147,10 @@ def run(ctx, res):
     ds = [d for d in metam.dag_dates() if d >= LO]
     dates = sorted(set([impl.ordinal("2024-01-01"), impl.ordinal("2019-01-01"), impl.ordinal("2022-10-01")] + (rnd.sample(ds, 2) if ctx.tier == "quick" else ds)))
     stats = dict(sweeps=0, points=0, model_points=0, share_checks=0, skipped=[])
-    directed = [int(ob["name"].split("_")[2]) for ob in out if not ob["ok"]]
+    directed = [int(next(t for t in ob["name"].split("_") if t.isdigit())) for ob in out if not ob["ok"]]
     for o in sorted(set(directed[:4] + dates)):
         for ost in (False, True):
-            for kids in ((True, 5) if ctx.tier == "quick" else (True, False, 2, 5, 6)):
+            for kids in ((True, False, 5, "young") if ctx.tier == "quick" else (True, False, 2, 4, 5, 6, "young")):
                 try:
                     ws, df, bnd = sweep(o, ost, kids, rnd, 120 if ctx.tier == "quick" else 600)
                     tg = [t for trip in ALL_BRANCHES.values() for t in trip if t in metam.dag_for(o)["nodes"]] + ["in_gleitzone"]
